@@ -1,177 +1,16 @@
-// Unit U1 `quorum`: Fraction::is_met, the four threshold constants, EpochInfo::is_*quorum,
-// Slot window arithmetic.  Serves C03 C06 C09 (quorum arithmetic used by every threshold test).
+// Unit U1 `quorum`: Fraction::is_met, the four threshold constants, EpochInfo::is_*quorum.
+// Serves C03 C06 C09 (quorum arithmetic used by every threshold test).
 //
-// Everything between /*@ ... @*/ is replaced by the item cut verbatim out of /repo on
-// every run; the text around it is hand-written specification (TRUSTED parts are marked).
+// Every `extract` directive is replaced by the item cut verbatim out of /repo on every run;
+// the text around it is hand-written specification (TRUSTED parts are marked).
 use vstd::prelude::*;
 
 verus! {
 
-// ---------------------------------------------------------------- TRUSTED model of std::num::NonZeroU64
-// (a stand-in type of the same name: `new(0)` is None, `get` returns the wrapped value; trusted to match std)
-#[derive(Clone, Copy)]
-pub struct NonZeroU64 { pub v: u64 }
-
-impl NonZeroU64 {
-    pub const fn new(n: u64) -> (r: Option<NonZeroU64>)
-        ensures
-            n != 0 ==> r == Some(NonZeroU64 { v: n }),
-            n == 0 ==> r is None,
-    { if n == 0 { None } else { Some(NonZeroU64 { v: n }) } }
-
-    pub const fn get(self) -> (r: u64)
-        ensures r == self.v
-    { self.v }
-}
-
-// ---------------------------------------------------------------- proved helper lemmas
-pub proof fn lemma_mul_u64_fits_u128(a: u64, b: u64)
-    ensures
-        a as int * b as int <= u128::MAX as int,
-        (a as u128) * (b as u128) == a as int * b as int,
-{
-    assert(a as int * b as int <= 0xffff_ffff_ffff_ffff * 0xffff_ffff_ffff_ffff) by (nonlinear_arith)
-        requires 0 <= a as int <= 0xffff_ffff_ffff_ffff, 0 <= b as int <= 0xffff_ffff_ffff_ffff;
-}
-
-// ---------------------------------------------------------------- Fraction (src/types/fraction.rs)
-/*@ extract src/types/fraction.rs :: struct Fraction
-@*/
-
-// The mathematical meaning of "value/total >= num/den" (exact, over unbounded integers).
-pub open spec fn frac_met(num: int, den: int, value: int, total: int) -> bool {
-    value * den >= total * num
-}
-
-impl Fraction {
-/*@ extract src/types/fraction.rs :: impl Fraction/fn new
-props C03 C06 C09
-ret r
-ensures
-        // [C03.fraction_new C06.fraction_new C09.fraction_new]
-        r.numerator == numerator,
-        r.denominator == denominator,
-@*/
-
-/*@ extract src/types/fraction.rs :: impl Fraction/fn is_met
-props C03 C06 C09
-ret r
-ensures
-        // [C03.is_met_exact C06.is_met_exact C09.is_met_exact]
-        r == frac_met(self.numerator as int, self.denominator.v as int, value as int, total as int),
-before `(value as u128)`
-        proof {
-            lemma_mul_u64_fits_u128(value, self.denominator.v);
-            lemma_mul_u64_fits_u128(total, self.numerator);
-        }
-@*/
-}
-
-// ---------------------------------------------------------------- threshold constants (src/consensus.rs)
-/*@ extract src/consensus.rs :: const WEAKEST_QUORUM_THRESHOLD
-props C06
-ensures
-        // [C06.threshold_20_percent]
-        WEAKEST_QUORUM_THRESHOLD.numerator == 1 && WEAKEST_QUORUM_THRESHOLD.denominator.v == 5,
-@*/
-/*@ extract src/consensus.rs :: const WEAK_QUORUM_THRESHOLD
-props C06
-ensures
-        // [C06.threshold_40_percent]
-        WEAK_QUORUM_THRESHOLD.numerator == 2 && WEAK_QUORUM_THRESHOLD.denominator.v == 5,
-@*/
-/*@ extract src/consensus.rs :: const QUORUM_THRESHOLD
-props C03 C06 C09
-ensures
-        // [C03.threshold_60_percent C06.threshold_60_percent C09.threshold_60_percent]
-        QUORUM_THRESHOLD.numerator == 3 && QUORUM_THRESHOLD.denominator.v == 5,
-@*/
-/*@ extract src/consensus.rs :: const STRONG_QUORUM_THRESHOLD
-props C03 C09
-ensures
-        // [C03.threshold_80_percent C09.threshold_80_percent]
-        STRONG_QUORUM_THRESHOLD.numerator == 4 && STRONG_QUORUM_THRESHOLD.denominator.v == 5,
-@*/
-
-// ---------------------------------------------------------------- Stake / EpochInfo (abstracted to what the quorum tests read)
-/*@ extract src/types/stake.rs :: struct Stake
-@*/
-impl Stake {
-/*@ extract src/types/stake.rs :: impl Stake/fn inner
-ret r
-ensures
-        r == self.0,
-@*/
-}
-
-// TRUSTED stand-in for the part of `EpochInfo` the quorum predicates read: only `total_stake`.
-// (The `validators` vector is irrelevant to these four functions.)
-pub struct EpochInfo {
-    pub total_stake: Stake,
-}
-
-// The property statements' thresholds, written from properties.jsonl (C03/C06/C09):
-// "at least 20% / 40% / 60% / 80% of total stake", exact over the integers.
-pub open spec fn at_least_pct(stake: int, total: int, pct: int) -> bool {
-    stake * 100 >= total * pct
-}
-
-pub proof fn lemma_pct_is_fifths(stake: int, total: int)
-    ensures
-        at_least_pct(stake, total, 20) == frac_met(1, 5, stake, total),
-        at_least_pct(stake, total, 40) == frac_met(2, 5, stake, total),
-        at_least_pct(stake, total, 60) == frac_met(3, 5, stake, total),
-        at_least_pct(stake, total, 80) == frac_met(4, 5, stake, total),
-{
-}
+/*@ include units/common/base_types.rs @*/
+/*@ include units/common/quorum_core.rs @*/
 
 impl EpochInfo {
-/*@ extract src/consensus/epoch_info.rs :: impl EpochInfo/fn total_stake
-ret r
-ensures
-        r == self.total_stake,
-@*/
-
-/*@ extract src/consensus/epoch_info.rs :: impl EpochInfo/fn is_weakest_quorum
-props C06
-ret r
-ensures
-        // [C06.weakest_quorum_is_20_percent]
-        r == at_least_pct(stake.0 as int, self.total_stake.0 as int, 20),
-before `WEAKEST_QUORUM_THRESHOLD.is_met`
-        proof { lemma_pct_is_fifths(stake.0 as int, self.total_stake.0 as int); }
-@*/
-
-/*@ extract src/consensus/epoch_info.rs :: impl EpochInfo/fn is_weak_quorum
-props C06
-ret r
-ensures
-        // [C06.weak_quorum_is_40_percent]
-        r == at_least_pct(stake.0 as int, self.total_stake.0 as int, 40),
-before `WEAK_QUORUM_THRESHOLD.is_met`
-        proof { lemma_pct_is_fifths(stake.0 as int, self.total_stake.0 as int); }
-@*/
-
-/*@ extract src/consensus/epoch_info.rs :: impl EpochInfo/fn is_quorum
-props C03 C06 C09
-ret r
-ensures
-        // [C03.quorum_is_60_percent C06.quorum_is_60_percent C09.quorum_is_60_percent]
-        r == at_least_pct(stake.0 as int, self.total_stake.0 as int, 60),
-before `QUORUM_THRESHOLD.is_met`
-        proof { lemma_pct_is_fifths(stake.0 as int, self.total_stake.0 as int); }
-@*/
-
-/*@ extract src/consensus/epoch_info.rs :: impl EpochInfo/fn is_strong_quorum
-props C03 C09
-ret r
-ensures
-        // [C03.strong_quorum_is_80_percent C09.strong_quorum_is_80_percent]
-        r == at_least_pct(stake.0 as int, self.total_stake.0 as int, 80),
-before `STRONG_QUORUM_THRESHOLD.is_met`
-        proof { lemma_pct_is_fifths(stake.0 as int, self.total_stake.0 as int); }
-@*/
-
 // Canary: the real `is_quorum` under a deliberately false contract (claims 40%).  It MUST fail;
 // if it verifies, the unit's result is void (contradictory preconditions / vacuous run).
 /*@ extract src/consensus/epoch_info.rs :: impl EpochInfo/fn is_quorum
